@@ -234,6 +234,7 @@ type harnessReport struct {
 	Pending    int            `json:"pending_paths"`
 	Terms      int            `json:"terms"`
 	Used       []string       `json:"models_and_intercepts_used,omitempty"`
+	CrossCheck map[string]int `json:"solver_cross_check,omitempty"`
 	Verdict    string         `json:"verdict"`
 }
 
@@ -379,6 +380,12 @@ func cmdCheck(args []string) int {
 		for k := range s.Counters {
 			if strings.HasPrefix(k, "used:") {
 				rep.Used = append(rep.Used, strings.TrimPrefix(k, "used:"))
+			}
+			if strings.HasPrefix(k, "crosscheck_") {
+				if rep.CrossCheck == nil {
+					rep.CrossCheck = map[string]int{}
+				}
+				rep.CrossCheck[strings.TrimPrefix(k, "crosscheck_")] = s.Counters[k]
 			}
 			if strings.HasPrefix(k, "deadlock-detail: ") {
 				fmt.Printf("  %s (x%d)\n", k, s.Counters[k])
@@ -879,7 +886,7 @@ func writeEvidence(id, tier string, seed int, reports []*harnessReport, samples 
 		"explanation":                   "bounded symbolic execution of the real functions (go/ssa of /repo's working tree) with z3 deciding every branch feasibility and every assertion; states = completed paths + symbolic decision nodes; obligations = assertion queries answered unsat (or folded to true) on some path; every sat answer (counterexample or cover witness) is replayed natively",
 		"harnesses":                     reports,
 		"functions_encoded":             fns,
-		"solver":                        map[string]any{"backend": "z3 4.8.12 (one live process per worker, push/pop)", "queries": solver.Queries, "sat": solver.Sat, "unsat": solver.Unsat, "unknown": solver.Unknown, "errors": solver.Errors, "seconds": solver.Seconds, "max_query_seconds": solver.MaxSeconds},
+		"solver":                        map[string]any{"backend": "z3 4.8.12 (one live process per worker, push/pop); a sample of discharged obligations per harness is re-decided one-shot by z3 5.1.0 and cvc5 1.0 (see solver_cross_check per harness)", "queries": solver.Queries, "sat": solver.Sat, "unsat": solver.Unsat, "unknown": solver.Unknown, "errors": solver.Errors, "seconds": solver.Seconds, "max_query_seconds": solver.MaxSeconds},
 		"outside_claim":                 ps.Outside,
 		"verdict":                       verdict,
 		"problems":                      problems,
